@@ -31,6 +31,8 @@ def load_corpus():
                 pf = os.path.join(sd, d, 'patch_rebased.diff')      # the same change, re-made next to a later fix: commit of /repo
             if os.path.exists(pf):
                 meta = json.load(open(os.path.join(sd, d, 'meta.json'))) if os.path.exists(os.path.join(sd, d, 'meta.json')) else {}
+                if meta.get('superseded'):
+                    continue          # made harmless or impossible by a later fix: commit of /repo (reason in meta.json)
                 out['S_' + d] = ('@patch', open(pf).read(), '', meta.get('property', d[:3]))
     # every "fix:" commit of /repo reverted: the violation must come back as a VIOLATION
     try:
